@@ -26,7 +26,7 @@ def sh(cmd, cwd=None, timeout=900):
 
 def main():
     only = [a for a in sys.argv[1:] if not a.startswith("--")]
-    waves = "OP" if "--wave8" in sys.argv else "MN" if "--wave7" in sys.argv else "KL" if "--wave6" in sys.argv else "IJ" if "--wave5" in sys.argv else "GH" if "--wave4" in sys.argv else "EF" if "--wave3" in sys.argv else "CD" if "--wave2" in sys.argv else ("AB" if "--wave1" in sys.argv else "ABCD")
+    waves = "QR" if "--wave9" in sys.argv else "OP" if "--wave8" in sys.argv else "MN" if "--wave7" in sys.argv else "KL" if "--wave6" in sys.argv else "IJ" if "--wave5" in sys.argv else "GH" if "--wave4" in sys.argv else "EF" if "--wave3" in sys.argv else "CD" if "--wave2" in sys.argv else ("AB" if "--wave1" in sys.argv else "ABCD")
     sh("git -C /repo worktree remove --force %s" % WT)
     rc, out = sh("git -C /repo worktree add --detach %s HEAD" % WT)
     assert rc == 0, out
